@@ -182,7 +182,7 @@ def check(ctx):
         # never make a later operation on the same socket - possibly one without any timeout - time out
         ctx.must_follow(SC, Call(AO + "store", on=ED + ".co", transitive=False), Call(A("(swap|store|take)"), on=ED + ".deadline", transitive=False), "arm-publish/deadline-consumed",
                         "store_co clears the deadline it looks at: a stale deadline would time out later operations on the socket at once")
-        ge = lambda a: a.kind == "cmp" and ((a.op == "Ge" and is_call_result(r"may::timeout_list::now")(a.a)) or (a.op == "Le" and is_call_result(r"may::timeout_list::now")(a.b)))
+        ge = deadline_passed_pred(ctx, f)
         ctx.guarded(SC, Call(r"may::yield_now::set_co_para", transitive=False), ge, "arm-publish/timedout-only-after-deadline", "store_co delivers TimedOut only when the deadline has passed",
                     rule="R-EXIT", pred_label="edge `now() >= deadline`")
         ctx.guarded(SC, Call(r"may::yield_now::set_co_para", transitive=False), variant_of_call(AO + "take", "Some"), "arm-publish/timedout-only-if-retaken",
@@ -226,3 +226,4 @@ def check(ctx):
     ctx.import_rules("C17", r"^fwd/|^del-io-timer/|^co-io-result/")
     shared.selector_serves_timeout_wakeups(ctx)
     ctx.import_rules("C17", r"^drop-order/")
+    shared.sleep_relative_to_fresh_clock(ctx)
